@@ -1,0 +1,54 @@
+//go:build verif
+
+package mangos
+
+// Verification ledger hooks (build tag verif only).  A checker installs
+// VerifLedgerHook to observe every ownership transition of every Message; with
+// VerifPoison set, the buffers of a message are overwritten when the last
+// reference is released, so that any later read through a stale alias is visible.
+
+const (
+	verifEvNew = iota
+	verifEvReuse
+	verifEvClone
+	verifEvFree
+	verifEvRelease
+)
+
+// Ledger event names, indexed by event number.
+var VerifEventNames = []string{"new", "reuse", "clone", "free", "release"}
+
+// VerifLedgerHook, when non-nil, is called as (event, message, requested size)
+// before Clone/Free take effect, when the last reference is released, when a
+// pooled buffer is about to be handed out again, and after NewMessage set it up.
+var VerifLedgerHook func(ev int, m *Message, sz int)
+
+// VerifPoison makes a release overwrite the message's buffers with VerifPoisonByte.
+var VerifPoison bool
+
+// VerifPoisonByte is the fill value used by VerifPoison.
+const VerifPoisonByte = 0xDD
+
+func verifLedger(ev int, m *Message, sz int) {
+	if ev == verifEvRelease && VerifPoison {
+		b := m.bbuf[:cap(m.bbuf)]
+		for i := range b {
+			b[i] = VerifPoisonByte
+		}
+		h := m.hbuf[:cap(m.hbuf)]
+		for i := range h {
+			h[i] = VerifPoisonByte
+		}
+	}
+	if VerifLedgerHook != nil {
+		VerifLedgerHook(ev, m, sz)
+	}
+}
+
+// VerifRefs returns the library's own reference count of m.
+func VerifRefs(m *Message) int32 { return m.refcnt }
+
+// VerifBuffers returns the full backing buffers of m (body, header).
+func VerifBuffers(m *Message) ([]byte, []byte) {
+	return m.bbuf[:cap(m.bbuf)], m.hbuf[:cap(m.hbuf)]
+}
